@@ -36,9 +36,12 @@ package repo
 //@   ensures [still-no-nil] allEntriesOK(i.Entries)
 //@   ensures [sorted-newest-first] forall k string :: has(i.Entries, k) ==> sortedDesc(i.Entries[k])
 
+// (the order SortEntries sorts by, reversed: an entry whose version does not parse — by the same lenient
+// parser that Get and the validation use — goes to the back, the others by semantic-version rank)
 //@ func ChartVersions.Less
-//@   props C20
+//@   props C20 C18
 //@   requires 0 <= a && a < len(c) && 0 <= b && b < len(c) && c[a] != nil && c[a].Metadata != nil && c[b] != nil && c[b].Metadata != nil
+//@   ensures [unparsable-last-then-by-rank] [C18] result == ite(!parses(c[a].Metadata.Version), true, ite(!parses(c[b].Metadata.Version), false, rank(c[a].Metadata.Version) < rank(c[b].Metadata.Version)))
 
 //@ func loadIndex
 //@   props C18 C20
